@@ -249,6 +249,16 @@ def cases():
             for init in ('A', 'B'):
                 out.append(dict(label='family-auth:v%d/%s/init%s' % (fam, auth, init), confs=c, addrs=addrs, ops=FIXED_HISTORY,
                                 initiator=init))
+    # (a3') tunnel whose outer family differs from the protected networks' family (both ways)
+    for outer, inner_a, inner_b in ((v6, '10.1.0.0/24', '10.2.0.0/24'),
+                                    (dict(a=S.IP_A, b=S.IP_B), '2001:db8:a::/64', '2001:db8:b::/64')):
+        c = S.base_confs(a_entry={'my_subnet': inner_a, 'peer_subnet': inner_b, 'mode': 'tunnel'},
+                         b_entry={'my_subnet': inner_b, 'peer_subnet': inner_a, 'mode': 'tunnel'})
+        for name, (my, peer) in (('A', ('a', 'b')), ('B', ('b', 'a'))):
+            conn = list(c[name].values())[0]
+            conn['my_addr'], conn['peer_addr'] = outer[my], outer[peer]
+        out.append(dict(label='family-mix:outer-%s' % ('v6' if outer is v6 else 'v4'), confs=c,
+                        addrs={'A': [outer['a']], 'B': [outer['b']]}, ops=('rekeyChildA', 'newB', 'rekeyIkeB', 'rekeyChildB')))
     # (a4) differing preference orders (same sets, different order; overlapping sets): INVALID_KE paths included
     for typ, vals in (('encr', ('aes128', 'aes256')), ('integ', ('sha256', 'sha512')), ('prf', ('sha1', 'sha512')), ('dh', ('19', '20'))):
         for la, lb in itertools.product(([vals[0], vals[1]], [vals[1], vals[0]], [vals[0]], [vals[1]]), repeat=2):
